@@ -220,15 +220,6 @@ impl FileSpec {
     pub fn used_directory(&self) -> PathBuf {
         self.directory.clone()
     }
-    pub(crate) fn has_basename(&self) -> bool {
-        !self.basename.is_empty()
-    }
-    pub(crate) fn has_discriminant(&self) -> bool {
-        self.o_discriminant.as_ref().is_some_and(|d| !d.is_empty())
-    }
-    pub(crate) fn uses_timestamp(&self) -> bool {
-        matches!(self.timestamp_cfg, TimestampCfg::Yes)
-    }
 
     // If no decision was done yet, decide now whether to include a timestamp
     // into the names of the log files.
